@@ -146,9 +146,16 @@ def run(ctx, B):
             # --- formula strings: the C07 corpus with all its single-byte mutations, under leak accounting and ASan
             import c07
             fstr = c07.corpus_for_memory_checks(quick)
+            nedge = {}
+            for key, lop in (("nist", "NISTList"), ("radio", "RadioList"), ("crystal", "CrystalList")):
+                nedge[key] = [t.encode("latin-1") for t in domains.name_edge_strings(XP.op(lop, "i", [1])[1][0].split("\t")[1:])]
+            nedge["symbol"] = [t.encode("latin-1") for t in domains.name_edge_strings([l.split("\t")[1] for l in XP.op("AtomicNumberToSymbol", "i", np.arange(1, 108))[1]])]
             ctx.notes["formula_strings"] = len(fstr)
             for X_, var in ((XP, "plain"), (XA, "asan")):
-                for opn, sg, cols in (("CompoundParser", "s", [fstr]), ("NISTByName", "s", [fstr[::7]])):
+                for opn, sg, cols in (("CompoundParser", "s", [fstr]), ("NISTByName", "s", [fstr[::7]]),
+                                      # by-name lookups: every catalogue name +- one character and every length 0..100
+                                      ("NISTByName", "s", [nedge["nist"]]), ("RadioByName", "s", [nedge["radio"]]), ("Crystal_GetCrystal", "s", [nedge["crystal"]]),
+                                      ("SymbolToAtomicNumber", "s", [nedge["symbol"]]), ("CompoundParser", "s", [nedge["nist"][::3]])):
                     rr, crashed, skipped = X_.op_safe(opn, sg, *cols)
                     ctx.add(evaluations=len(cols[0]))
                     for j in crashed:
@@ -159,6 +166,12 @@ def run(ctx, B):
                         sj = cols[0][j].decode("latin-1")
                         sym = "sanitizer" if rr["flags"][j] & F_SAN else "leak"
                         ctx.violation("%s|string|%s|%s" % (opn, sym, var), "%s(%r): %s (leak=%d)" % (opn, sj, sym, rr["leak"][j]), dict(cfg="A", variant=var, calls=[dict(op=opn, sig=sg, args=[sj])]))
+                nn_ = nedge["nist"]
+                rr2, cr2, sk2 = X_.call_safe("Refractive_Index_Re", nn_, np.full(len(nn_), 10.0), np.full(len(nn_), 1.0))
+                ctx.add(evaluations=len(nn_))
+                for j in list(cr2) + [int(q) for q in np.nonzero(((rr2["flags"] & F_SAN) != 0) | (rr2["leak"] != 0))[0][:20]]:
+                    ctx.violation("Refractive_Index_Re|string|%s|%s" % ("crash" if j in cr2 else "sanitizer" if rr2["flags"][j] & F_SAN else "leak", var), "Refractive_Index_Re(%r, 10, 1)" % nn_[j].decode("latin-1"),
+                                  dict(cfg="A", variant=var, calls=[dict(fn="Refractive_Index_Re", args=[nn_[j].decode("latin-1"), 10.0, 1.0])]))
                 rr, crashed, skipped = X_.call_safe("CS_Total_CP", fstr[::3], np.full(len(fstr[::3]), 10.0))
                 ctx.add(evaluations=len(fstr[::3]))
                 for j in crashed:
